@@ -11,6 +11,7 @@ CONSTANTS
   Forced = {}
   WorldSet <- W3
   AnchorChoice <- MCAnchors
+  StoreChoice <- MCStoreDefault
 INVARIANT TypeOK
 INVARIANT StackBounded
 INVARIANT VerdictIffChain
